@@ -326,6 +326,23 @@ def check_r2(prop, tier, seed, spec):
                 violations.append((label, ln, lines[ln]))
         log("[%s] %s: build %.0fs, recorded %d events in %.1fs, validated by TLC in %d shard(s), %d rejected" % (prop, label, bdt, n, rdt, len(res), len(rej_lines)))
 
+    path_cov = None
+    if spec.get("paths"):
+        # spec-side path labels: the R1 algorithm model evaluated at W = 64 on the recorded inputs
+        meta = os.path.join(wdir, "meta_paths")
+        env = dict(os.environ, TRACE=os.path.join(wdir, "trace_rel.ndjson"), STRIDE=str(spec["paths"].get(tier, 1)))
+        cmd = tlc_cmd(1, meta, ["-config", os.path.join(TLA, "PathTrace.cfg"), os.path.join(TLA, "PathTrace.tla")], heap="4g")
+        out, dt = run(cmd, cwd=TLA, env=env, timeout=1800, check=False)
+        shutil.rmtree(meta, ignore_errors=True)
+        m = re.search(r'<<"PATHS", (\d+), (\d+), (\d+), (\d+), (\d+), (\d+)>>', out)
+        if not m:
+            raise ToolError("PathTrace did not finish:\n" + out[-2000:])
+        ev_, ab, qm, co, drift, ct = map(int, m.groups())
+        path_cov = dict(model="tla/algo/KnuthD.tla at W=64 (tla/PathTrace.tla)", events_evaluated=ev_, constant_time_form=ct, vartime_form=ev_ - ct,
+                        took_add_back=ab, quotient_estimate_maxed=qm, needed_3by2_correction=co, spec_drift=drift, wall=round(dt, 1))
+        log("[%s] path labels at W=64: %d recorded divisions re-evaluated by the KnuthD model, %d take add-back, %d have a maxed estimate, %d a 3-by-2 correction, %d SPEC-DRIFT" % (prop, ev_, ab, qm, co, drift))
+        g, d_ = parse_states(out)
+        totals["states"] += d_; totals["transitions"] += g
     for rspec, fut in r1_futs:
         r = fut.result()
         if "expect_violation" in rspec:
@@ -368,7 +385,7 @@ def check_r2(prop, tier, seed, spec):
         events_validated=totals["events"], evaluations=totals["events"], distinct_nontrivial=nontrivial,
         rule="every public call recorded by the harness (structured limbs, constructive families, exhaustive small parameters; two build profiles) is one trace event validated by TLC against the TLA+ contract; distinct = distinct (inputs, outcome) after removing the form label; non-trivial = " + NONTRIV_RULE,
         forms_exercised=len(forms), outcomes=outcome_counts, samples=samples, r1_models=r1_results,
-        rejected_events=len(violations) + sum(known.values()), known_findings_matched=known,
+        rejected_events=len(violations) + sum(known.values()), known_findings_matched=known, path_coverage=path_cov,
         exhaustive=False)
     write_evidence(prop, tier, seed, "model_checking", coverage, spec.get("assumptions", []), time.time() - t0, len(violations))
     return 1 if violations else 0
